@@ -111,6 +111,26 @@ NOTES.update({
  "C19-5": ("caught", ""),
  "C20-5": ("missed at first", "converse table: in-domain option values as numpy integers / floats / strings, keyword instead of positional, lists and numpy-integer tuples for shapes"),
 })
+NOTES.update({
+ "C01-6": ("caught", ""),
+ "C02-6": ("missed at first (the change was made in quat_matmat, which the C02 monitor did not call: products were formed by the oracle)", "homomorphism also with the product formed by the library; entry class two_axis (only two of the four component planes populated)"),
+ "C03-6": ("caught", ""),
+ "C05-6": ("caught", ""),
+ "C06-6": ("caught", ""),
+ "C07-6": ("caught by thorough only", ""),
+ "C08-6": ("caught", ""),
+ "C09-6": ("caught", ""),
+ "C10-6": ("caught", ""),
+ "C11-6": ("missed at first", "structured Hermitian inputs for the Moore determinant: zero sub-diagonal entry with non-zero tail, arrow, sparse, block diagonal, tridiagonal, real symmetric"),
+ "C12-6": ("caught", ""),
+ "C13-6": ("caught", ""),
+ "C14-6": ("missed at first", "the whole battery at exact extreme scalings (2^-540, 2^505); arguments are judged even when the call raises"),
+ "C15-6": ("missed at first", "spectral norm of exactly scaled matrices whose squared entries under- or overflow (2^-560 .. 2^520)"),
+ "C17-6": ("caught", ""),
+ "C18-6": ("missed at first", "positions of the moduli for every tensor memory order (C, Fortran, permuted and reversed views, the views unfold / fold hand out)"),
+ "C19-6": ("caught", ""),
+ "C20-6": ("caught", ""),
+})
 for d in sorted(glob.glob(os.path.join(HERE, "seeded", "C*"))):
     pid = os.path.basename(d)[:3]
     agent = {}
